@@ -18,9 +18,9 @@ package centrifuge
 // A schedule is a list of labels executed strictly in order: `s:<actor>` starts an actor,
 // `r:<gate>` waits until some goroutine is parked on the gate and releases exactly one, `a:<gate>`
 // only waits for the arrival, `w:<actor>` waits until a started actor has finished.  A label
-// that cannot be executed within the (real-time) budget makes the schedule `infeasible` from
-// there: all gates are opened and the scenario runs to completion; the recorded log is a real
-// trace either way.  A join that does not finish is reported as HARNESS-TIMEOUT (never a verdict).
+// that cannot be executed within the (real-time) budget is skipped (counted in `infeasible`); when
+// the schedule is exhausted all gates are opened and the scenario runs to completion; the
+// recorded log is a real trace either way.  A join that does not finish is reported as HARNESS-TIMEOUT (never a verdict).
 // No sleeps are used for synchronisation.
 //
 // Output of `sched`: `log=<events> infeasible=<index|-> after=<status after shutdown|-> final=<status>`
@@ -233,13 +233,14 @@ func (s *verifC08Scn) actor(name string, after *atomic.Value) {
 		ok := HandleReadFrame(s.client, bytes.NewReader(verifC08Cmd(&protocol.Command{Id: 1, Connect: &protocol.ConnectRequest{}})), 65536)
 		if ok && s.hasReply(1) {
 			s.ev("est:connect")
-			if s.ss {
-				s.ev("est:s1")
-			}
+		}
+		// established = committed in the client's channel table (or already torn down with a callback)
+		if s.ss && s.client.IsSubscribed("s1") {
+			s.ev("est:s1")
 		}
 		if ok && strings.Contains(s.cprog, "s") {
 			ok = HandleReadFrame(s.client, bytes.NewReader(verifC08Cmd(&protocol.Command{Id: 2, Subscribe: &protocol.SubscribeRequest{Channel: "c1"}})), 65536)
-			if s.hasReply(2) {
+			if s.client.IsSubscribed("c1") {
 				s.ev("est:c1")
 			}
 		}
@@ -292,8 +293,8 @@ func (s *verifC08Scn) sched(labels []string, budget time.Duration) string {
 	after.Store("-")
 	parked := map[string]int{}
 	started := map[string]bool{}
-	infeasible := "-"
-	for i, l := range labels {
+	skipped := 0
+	for _, l := range labels {
 		if strings.HasPrefix(l, "s:") {
 			if ch, ok := s.ended[l[2:]]; ok && !started[l[2:]] {
 				_ = ch
@@ -316,8 +317,7 @@ func (s *verifC08Scn) sched(labels []string, budget time.Duration) string {
 			}
 			tm.Stop()
 			if !okw {
-				infeasible = fmt.Sprint(i)
-				break
+				skipped++
 			}
 			continue
 		}
@@ -338,8 +338,9 @@ func (s *verifC08Scn) sched(labels []string, budget time.Duration) string {
 		}
 		tm.Stop()
 		if parked[g] == 0 {
-			infeasible = fmt.Sprint(i)
-			break
+			// not executable now (the callback is not reached in this state): skip the label
+			skipped++
+			continue
 		}
 		if arriveOnly {
 			continue
@@ -356,12 +357,16 @@ func (s *verifC08Scn) sched(labels []string, budget time.Duration) string {
 		return "HARNESS-TIMEOUT"
 	}
 	est := []string{}
-	if s.hasReply(1) && s.ss {
-		est = append(est, "s1")
+	s.mu.Lock()
+	for _, sub := range []string{"s1", "c1"} {
+		for _, e := range s.log {
+			if e == "est:"+sub || e == "unsub:"+sub+"+" {
+				est = append(est, sub)
+				break
+			}
+		}
 	}
-	if s.hasReply(2) {
-		est = append(est, "c1")
-	}
+	s.mu.Unlock()
 	st2 := "-"
 	if s.c2 != nil {
 		st2 = s.status(s.c2)
@@ -378,6 +383,10 @@ func (s *verifC08Scn) sched(labels []string, budget time.Duration) string {
 	s.mu.Unlock()
 	if len(est) == 0 {
 		est = []string{"-"}
+	}
+	infeasible := "-"
+	if skipped > 0 {
+		infeasible = fmt.Sprint(skipped)
 	}
 	return fmt.Sprintf("log=%s infeasible=%s after=%s est=%s end2=%s final=%s", log, infeasible, after.Load().(string),
 		strings.Join(est, ","), st2, final)
@@ -579,7 +588,7 @@ func TestVerifC08(t *testing.T) {
 			cur.setup(verifC08KV(ws[1:]))
 			fmt.Fprintln(w, "ok")
 		case ws[0] == "sched" && cur != nil:
-			budget := 150 * time.Millisecond
+			budget := 40 * time.Millisecond
 			if os.Getenv("VERIF_C08_STRICT") != "" {
 				budget = 3 * time.Second
 			}
